@@ -190,6 +190,99 @@ def client_real(rep, rng, tier):
     return {"sessions": len(scs)}
 
 
+def server_traces(rep, rng, tier):
+    """the system calls the server issues for a connection = the trace of the engine script of its commands
+    (Resp/OverEngine.v script_of; one delete per key of a DEL), call by call and byte by byte"""
+    import os
+    import storelib as S
+    import tracelib as T
+    from common import harness_run, CACHE
+    oks, outs = T.build_shim()
+    rep.obligation("recorder builds", oks)
+    if not oks:
+        return {"sessions": 0}
+    n = {"quick": 24, "thorough": 240}[tier]
+    scs = []
+    for i in range(n):
+        r = rng.fork()
+        reqs, keys = N.gen_reqs(r, r.rng(1, 10))
+        reqs = reqs[:30]
+        replies, _ = N.spec_replies(reqs)
+        mfs = r.choice([60, 200, 2 ** 31])
+        sync = r.chance(1, 3)
+        ops = ["conn c"]
+        for q, rp in zip(reqs, replies):
+            ops += ["send c %s" % G.rawhex(G.enc(N.req_frame(q))), "recv c %d 5000" % len(rp)]
+        sc = N.Scenario("t%d" % i, "maxconn=4 mfs=%d sync=%s" % (mfs, "always" if sync else "none"), ops)
+        sc.reqs, sc.mfs, sc.sync = reqs, mfs, sync
+        scs.append(sc)
+
+    def run(args):
+        idx, sh = args
+        logp = os.path.join(CACHE, "iolog-srv-%d-%d.txt" % (os.getpid(), idx))
+        if os.path.exists(logp):
+            os.remove(logp)
+        rc, out = harness_run(["server"], "".join(s.script() for s in sh), timeout=900, env={"LD_PRELOAD": T.SHIM, "IOREC_LOG": logp})
+        text = open(logp, errors="replace").read() if os.path.exists(logp) else ""
+        if os.path.exists(logp):
+            os.remove(logp)
+        return T.parse_log(text)
+    shards = chunks(scs, 8)
+    parsed = {}
+    import concurrent.futures as cf
+    with cf.ThreadPoolExecutor(max_workers=8) as ex:
+        for d in ex.map(run, list(enumerate(shards))):
+            parsed.update(d)
+    # the model: the script of the commands
+    cases = []
+    for sc in scs:
+        ops = []
+        for q in sc.reqs:
+            if q[0] == "GET":
+                ops.append(("get", q[1]))
+            elif q[0] == "SET":
+                ops.append(("set", q[1], q[2]))
+            else:
+                ops += [("del", k) for k in q[1]]
+        cases.append(S.Case(sc.name, {"mfs": sc.mfs, "cache": 256, "conc": 1, "frag": (0, 1), "dead": 0, "small": 0, "sync": sc.sync}, ops))
+    mshards = chunks(cases, NCPU)
+    terms = ["render_cases_traces [%s]" % "; ".join(S.coq_case(c) for c in sh) for sh in mshards]
+    res, logs = coq_eval("C06", "Store.Engine Store.Render", terms)
+    ndis, ok_eval, ncalls = 0, True, 0
+    for sh, r in zip(mshards, res):
+        if r is None:
+            ok_eval = False
+            continue
+        lines = r.split("\n")
+        i = 0
+        for c in sh:
+            k = len(c.ops) + 1
+            model = []
+            for x in (x for l in lines[i:i + k] for x in l.split(";") if x):
+                # without operation marks the recorder sees adjacent writes to one file as one append: merge them here too
+                w = x.split(" ")
+                if w[0] == "write" and model and model[-1].startswith("write %s " % w[1]):
+                    n1, h1 = (int(v) for v in model[-1].split(" ")[2].split(":"))
+                    n2, h2 = (int(v) for v in w[2].split(":"))
+                    model[-1] = "write %s %d:%d" % (w[1], n1 + n2, (h1 * pow(31, n2, 4294967296) + h2) % 4294967296)
+                else:
+                    model.append(x)
+            i += k
+            tr = parsed.get(c.name)
+            real = [call.show() for call in tr["ops"].get(-1, [])] if tr else None
+            ncalls += len(model)
+            if real != model:
+                ndis += 1
+                j = next((x for x in range(min(len(real or []), len(model))) if real[x] != model[x]), min(len(real or []), len(model)))
+                rep.disagree.append({"obligation": "correspondence server trace: system calls of the server = trace of the engine script", "case": c.show(),
+                                     "first_difference_at": j, "model": model[max(0, j - 1):j + 2], "impl": (real or ["no trace"])[max(0, j - 1):j + 2]})
+    for l in logs[:1]:
+        log(l)
+    rep.obligation("the script traces evaluate on every session", ok_eval)
+    rep.obligation("correspondence server trace: system calls of the server = trace of the engine script of its commands", ndis == 0 and ok_eval)
+    return {"sessions": len(scs), "calls": ncalls}
+
+
 def main(tier, seed):
     rep = Report("C06", tier, seed)
     rng = Rng(seed)
@@ -259,6 +352,7 @@ def main(tier, seed):
     rep.obligation("correspondence handler: model = server on every scenario", ndis == 0)
     cov_fake = client_fake(rep, rng, tier)
     cov_real = client_real(rep, rng, tier)
+    cov_trace = server_traces(rep, rng, tier)
     rep.coverage.update({
         "checker_cmd": "make -C coq Props/C06.vo (coqc 8.16.1) ; bin/check C06",
         "trusted_base": TRUSTED,
@@ -268,7 +362,7 @@ def main(tier, seed):
                 "(each segment completes one request and carries a prefix of the next; its reply must arrive before the rest is sent); distinct "
                 "= (command kinds, segmentation, pipelining)",
         "modes": modes,
-        "client_sessions_scripted_server": cov_fake, "client_sessions_real_server": cov_real,
+        "client_sessions_scripted_server": cov_fake, "client_sessions_real_server": cov_real, "server_syscall_traces": cov_trace,
         "samples": [{"requests": [str(q)[:60] for q in scs[0].reqs], "ops": scs[0].ops[:8], "out": (scs[0].out or [])[:8]}],
         "proof": {"file": "coq/Props/C06.v", "theorems": pr["theorems"], "axioms": pr["axioms"]},
     })
